@@ -2037,6 +2037,13 @@ def df_method(it, obj, name, args, kw):
         d = obj.copy()
         d.index = "range"
         return d
+    if name == "pop" and len(args) == 1 and not kw and isinstance(args[0], str):
+        # DataFrame.pop(col): the column is handed back and removed from the frame, in place
+        if args[0] not in obj.cols:
+            raise Raised("KeyError", args[0])
+        col = _col(obj, args[0])
+        del obj.cols[args[0]]
+        return col
     if name == "drop" and ("index" in kw or (args and kw.get("axis", 0) in (0, "index") and "columns" not in kw)) and set(kw) <= {"index", "axis", "labels"}:
         # rows removed by index LABEL
         idx = kw.get("index", kw.get("labels", args[0] if args else None))
